@@ -259,7 +259,9 @@ Definition create_fs_obj (fl : N) (e : entry) (st : pstate) (w : work) : option 
             | inl en => (Some en, with_fs st fs3, w)
             | inr (Leaf false i _ _ _) =>                       (* open(O_WRONLY|O_TRUNC|O_NOFOLLOW) *)
                 (None, with_fs st (fd_write fs3 i []), w_set_fd w (Some i))
-            | inr _ => (None, with_fs st fs3, w)
+            | inr _ =>                                          (* not a regular file: nothing is opened *)
+                (None, with_fs st fs3,
+                 if HARDLINK_DATA_NONREG_CLEARS_TODO then w_set_todo w false false false false else w)
             end
         end
       | (_, fs1) => (Some EPERM, with_fs st fs1, w)
@@ -575,8 +577,6 @@ Fixpoint run_entries (fl : N) (st : pstate) (es : list entry) : list (status * s
     end
   end.
 
-Definition run_history (fl : N) (st : pstate) (es : list entry) : list (status * status) * pstate :=
-  match run_entries fl st es with (l, st1) => (l, close_fixups st1) end.
 
 (* ------------------------------------------------------------------------------------------ *)
 (* The close loop of the PROPOSED FIX (fixes/C04-fixup-intermediate-symlink.diff): with
@@ -601,3 +601,12 @@ Definition close_fixups_checked (fl : N) (st : pstate) : pstate :=
 
 Definition run_history_checked (fl : N) (st : pstate) (es : list entry) : list (status * status) * pstate :=
   match run_entries fl st es with (l, st1) => (l, close_fixups_checked fl st1) end.
+
+(* the close loop the code has (Gen/FsSecConsts.v : CLOSE_CHECKS_FIXUP_PATH is regenerated from
+   the source on every run) *)
+Definition close_fixups_cur (fl : N) (st : pstate) : pstate :=
+  if CLOSE_CHECKS_FIXUP_PATH then close_fixups_checked fl st else close_fixups st.
+
+(* a whole history: every entry, then archive_write_close *)
+Definition run_history (fl : N) (st : pstate) (es : list entry) : list (status * status) * pstate :=
+  match run_entries fl st es with (l, st1) => (l, close_fixups_cur fl st1) end.
